@@ -332,6 +332,47 @@ pub fn run_pool(check: &dyn Check, tier: Tier, limit: Option<usize>) -> Aggregat
         h.join().expect("pool thread");
     }
     let mut g = Arc::try_unwrap(agg).unwrap().into_inner().unwrap();
+    // A case that timed out while 16 workers (and whatever else runs on the machine) competed for the
+    // cores is run once more, alone, with three times the budget: only a case that still does not
+    // finish is reported as a timeout. (A timeout is a statement about the subject, not about load.)
+    if !g.timeouts.is_empty() {
+        let again: Vec<usize> = std::mem::take(&mut g.timeouts);
+        let mut retried = 0u64;
+        for at in again {
+            let mut worker = spawn_worker(&name, tier);
+            let mut finished = false;
+            if writeln!(worker.stdin, "RUN {at} {}", at + 1).and_then(|_| worker.stdin.flush()).is_ok() {
+                let deadline = Instant::now() + timeout * 3 + Duration::from_secs(120);
+                loop {
+                    let wait = deadline.saturating_duration_since(Instant::now());
+                    match worker.rx.recv_timeout(wait) {
+                        | Ok(line) => {
+                            if let Some(rest) = line.strip_prefix("R ") {
+                                let (idx, json) = rest.split_once(' ').unwrap();
+                                let idx: usize = idx.parse().unwrap();
+                                let r: CaseResult = serde_json::from_str(json).expect("case result json");
+                                absorb(&mut g, idx, r);
+                                finished = true;
+                            } else if line == "DONE" {
+                                break;
+                            }
+                        }
+                        | Err(_) => break,
+                    }
+                }
+            }
+            let _ = worker.child.kill();
+            let _ = worker.child.wait();
+            if finished {
+                retried += 1;
+            } else {
+                g.timeouts.push(at);
+            }
+        }
+        if retried > 0 {
+            *g.counters.entry("cases_finished_on_a_solitary_retry_after_a_timeout_under_load".into()).or_insert(0) += retried;
+        }
+    }
     g.violations.sort_by_key(|(i, _)| *i);
     g.timeouts.sort();
     g.crashes.sort();
